@@ -1,6 +1,6 @@
 //go:build verif
 
-// vharness: the instrumented-flavour harness binary. Parts register themselves from init()
+// pharness: the plain-flavour harness binary (untouched packages, real channels/time/sockets). Parts register themselves from init()
 // functions of the harness files injected into the sx packages (drv.Register).
 package main
 
